@@ -505,7 +505,10 @@ func genHist(id int) O {
 		}
 		switch rng.Intn(6) {
 		case 5: // something the captain cannot execute: not an operation at all, or a malformed one
-			switch rng.Intn(5) {
+			switch rng.Intn(6) {
+			case 5: // ... nor can the captain be sent away (its state is not reported: a rebuilt crew has a captain at its post)
+				h.Msgs = append(h.Msgs, map[string]interface{}{"id": newID("op"), "to": "captain", "update": map[string]interface{}{"captain": map[string]interface{}{
+					"state": map[string]interface{}{"node": pickS([]string{"gone", "do", "start"}), "bs": map[string]interface{}{"note": "moved"}}}}})
 			case 3, 4: // the crew's own machines cannot be deleted (a crew rebuilt from the store always has them)
 				del := []interface{}{pickS([]string{"captain", "timers"})}
 				if rng.Intn(3) == 0 {
